@@ -1,8 +1,14 @@
 (* Properties/C17.v — plain graph: reversible, stable, dual paths.  Statements only; proofs in
    Proofs/PGraphProofs.v.  [pbuild] and [reversed] transcribe graph_builder.go and Reversed() (after the
-   repair F7) over a model of gonum's multigraph with sequential IDs (Model/PGraph.v). *)
+   repair F7) over a model of gonum's multigraph with sequential IDs (Model/PGraph.v).  THE STRUCTURE (last
+   theorem, Proofs/PBuilderShape.v): for every model in [pshape_domain] (no relation declared twice, no name that
+   reads as an operator node) and every relation, the lines entering "type#relation" and each operator node
+   created for it — as (label of the source node, kind, tupleset label, conditions), in line order — are exactly
+   the lists Spec/PGraphShape.pshape computes from the rewrite alone: "the same nodes and typed edges as the rewrite
+   dictates, drawn from user types towards relations". *)
 From Coq Require Import Permutation.
-From Verif Require Import Base.Str Model.Ast Model.WGraph Model.PGraph Proofs.PGraphProofs Proofs.BfsProofs.
+From Verif Require Import Base.Str Base.Outcome Model.Ast Model.Printer Model.WGraph Model.PGraph Spec.GraphShape Spec.PGraphShape
+  Proofs.PGraphProofs Proofs.BfsProofs Proofs.BuilderShape Proofs.PBuilderShape.
 
 (* 1. reversing keeps the nodes (IDs and labels) and negates the drawing direction, for every graph *)
 Theorem C17_reverse_keeps_nodes : forall g,
@@ -78,3 +84,35 @@ Example C17_parallel_lines :
   let g := pbuild {| m_schema := lit "1.1"; m_types := [td]; m_conds := [] |} in
   length (pg_lines g) = 4%nat /\ reversed (reversed g) = g.
 Proof. split; vm_compute; reflexivity. Qed.
+
+(* 6. THE STRUCTURE of the plain graph, relation by relation *)
+Theorem C17_graph_has_the_lines_the_rewrites_dictate : forall m,
+  pshape_domain m = true ->
+  forall td r u, In td (m_types m) -> assoc r (td_rels td) = Some u ->
+  exists k, let '(l, created, k') := pshape (pty_of (pbuild m)) m td r k (td_name td ++ lit "#" ++ r) u [] in
+            entries (pbuild m) (td_name td ++ lit "#" ++ r) = l /\
+            (forall olab es, In (olab, es) created -> entries (pbuild m) olab = es) /\ k' <= pg_ops (pbuild m).
+Proof. exact pbuild_shape. Qed.
+
+(* one rewrite below one parent: the lines entering the parent, the operator nodes created with the lines entering
+   them, the operator count — and nothing else changes *)
+Theorem C17_one_rewrite : forall ty m td rel u g p plabel,
+  WF g -> find_pnode plabel g = Some p -> pfresh g -> pold g plabel ->
+  Forall nonop (req_ids td rel u) -> pty_ok ty (p_rewrite g p m td rel u) ->
+  presult_ok g (p_rewrite g p m td rel u) plabel (pshape ty m td rel (pg_ops g) plabel u (entries g plabel)).
+Proof. intros ty m td rel u. exact (p_rewrite_shape ty m td rel u). Qed.
+
+(* non-vacuity: the model with parallel lines above is in the domain; what enters doc#v is the union operator, and
+   what enters the union operator are the direct line from doc#v and the tuple-to-userset line from doc#v *)
+Example C17_structure_example :
+  let refs := [{| rr_type := lit "doc"; rr_kind := RRel (lit "v"); rr_cond := [] |}] in
+  let td := {| td_name := lit "doc";
+               td_rels := [(lit "p", UThis ThisEmpty); (lit "v", UUnion [UThis ThisEmpty; UTTU (lit "p") (lit "v")])];
+               td_meta := Some {| tm_rels := [(lit "p", {| rm_types := [{| rr_type := lit "doc"; rr_kind := RPlain; rr_cond := [] |}]; rm_module := []; rm_file := None |});
+                                              (lit "v", {| rm_types := refs; rm_module := []; rm_file := None |})];
+                                  tm_module := []; tm_file := None |} |} in
+  let m := {| m_schema := lit "1.1"; m_types := [td]; m_conds := [] |} in
+  pshape_domain m = true /\
+  entries (pbuild m) (lit "doc#v") = [(lit "union:0", ERewrite, [], [no_cond])] /\
+  entries (pbuild m) (lit "union:0") = [(lit "doc#v", EDirect, [], [no_cond]); (lit "doc#v", ETTU, lit "doc#p", [no_cond])].
+Proof. cbv zeta. split; [vm_compute; reflexivity|]. split; vm_compute; reflexivity. Qed.
